@@ -297,6 +297,42 @@ def global_random_reads(cd, rel, skip=("__init__", "worker_init_fn", "_worker_in
     return bad
 
 
+def _evidently_int_set(n):
+    """set(range(..)) / {1, 2, 3} / set of int literals: iteration order is the same in every process"""
+    if isinstance(n, ast.Set):
+        return all(isinstance(e, ast.Constant) and isinstance(e.value, int) for e in n.elts)
+    if isinstance(n, ast.Call) and ast.unparse(n.func) in ("set", "frozenset") and n.args:
+        a = n.args[0]
+        if isinstance(a, ast.Call) and ast.unparse(a.func) == "range":
+            return True
+        if isinstance(a, (ast.List, ast.Tuple)):
+            return all(isinstance(e, ast.Constant) and isinstance(e.value, int) for e in a.elts)
+    return False
+
+
+def _is_set_expr(n):
+    return isinstance(n, (ast.Set, ast.SetComp)) or (isinstance(n, ast.Call) and ast.unparse(n.func) in ("set", "frozenset"))
+
+
+def process_dependent_sources(cd, rel):
+    """values that differ between processes / instances although seed and inputs agree: the iteration order of a set of
+    non-integers (address- or PYTHONHASHSEED-dependent hashes), id(), hash(), clocks, OS entropy"""
+    bad = []
+    for fn in cd.body:
+        if not isinstance(fn, ast.FunctionDef):
+            continue
+        for n in ast.walk(fn):
+            if isinstance(n, ast.Call):
+                f = ast.unparse(n.func)
+                if f in ("list", "tuple", "enumerate", "iter", "next") and n.args and _is_set_expr(n.args[0]) and not _evidently_int_set(n.args[0]):
+                    bad.append(f"{rel}:{n.lineno} {f}(<set>) fixes an order that depends on object hashes")
+                elif f in ("id", "hash") or f.startswith(("time.time", "time.perf_counter", "time.monotonic", "os.urandom", "uuid.", "secrets.", "datetime.datetime.now")):
+                    bad.append(f"{rel}:{n.lineno} {f}(...)")
+            elif isinstance(n, (ast.For, ast.comprehension)) and _is_set_expr(n.iter) and not _evidently_int_set(n.iter):
+                bad.append(f"{rel}:{n.lineno} iteration over a set (order depends on object hashes)")
+    return bad
+
+
 def transform_table(eng=None):
     from .engine import Engine
     eng = eng or Engine()
@@ -358,9 +394,51 @@ def c07_obligations(res):
         add_direct(res, f"{clsid}:frame:no-global-random-source", "frame", not bad, where=rel,
                    note=f"{cd.name}: no method outside __init__/worker hooks reads a process-global random source",
                    detail="; ".join(bad), model={"reads": bad} if bad else None)
+        bad = process_dependent_sources(cd, rel)
+        add_direct(res, f"{clsid}:frame:no-process-dependent-source", "frame", not bad, where=rel,
+                   note=f"{cd.name}: no method derives a value or an order from object hashes / addresses, clocks or OS entropy",
+                   detail="; ".join(bad), model={"reads": bad} if bad else None)
     if n_classes == 0:
         res.errors.append("no transform class discovered")
     return n_classes
+
+
+def seed_presence_by_identity(res, files):
+    """C08: a seed of 0 is a seed - the presence of a seed must be tested with `is (not) None`, never by truthiness"""
+    def truthy_uses(test):
+        out = []
+        if isinstance(test, ast.Attribute) and test.attr == "seed" or isinstance(test, ast.Name) and test.id == "seed":
+            out.append(test)
+        elif isinstance(test, ast.BoolOp):
+            for v in test.values:
+                out += truthy_uses(v)
+        elif isinstance(test, ast.UnaryOp) and isinstance(test.op, ast.Not):
+            out += truthy_uses(test.operand)
+        return out
+    n = 0
+    for rel in files:
+        try:
+            tree = ast.parse(open(os.path.join(REPO, rel)).read())
+        except (OSError, SyntaxError):
+            continue
+        bad = []
+        for node in ast.walk(tree):
+            tests = []
+            if isinstance(node, (ast.If, ast.IfExp, ast.While, ast.Assert)):
+                tests.append(node.test)
+            elif isinstance(node, ast.BoolOp):
+                tests.append(node)
+            elif isinstance(node, ast.comprehension):
+                tests += node.ifs
+            for t in tests:
+                for u in truthy_uses(t):
+                    bad.append(f"{rel}:{u.lineno} truthiness of {ast.unparse(u)}")
+        if "seed" in open(os.path.join(REPO, rel)).read():
+            n += 1
+            add_direct(res, f"{rel}:frame:seed-presence-tested-by-identity", "frame", not bad, where=rel,
+                       note="`seed is (not) None` decides whether a wrapper is seeded; seed == 0 is a seed like any other",
+                       detail="; ".join(sorted(set(bad))), model={"uses": sorted(set(bad))} if bad else None)
+    return n
 
 
 # ------------------------------------------------------------------------------------------------ generic definedness
@@ -614,3 +692,74 @@ def mix_wrapper_single_draw(res, rel="kappadata/wrappers/sample_wrappers/kd_mix_
     bad += global_random_reads(m.classes[cls], rel)
     add_direct(res, name, "frame", not bad, where=rel, note="getitem_x / getitem_class project getitem_xclass; its generator is default_rng(seed + idx)",
                detail="; ".join(bad), model={"sites": bad} if bad else None)
+
+
+# ------------------------------------------------------------------------------------------------ C14: einops patterns
+def _rearrange_patterns(rel):
+    """(class, pattern string) for every einops.rearrange call in a file"""
+    tree = ast.parse(open(os.path.join(REPO, rel)).read())
+    out = []
+    for cd in [n for n in tree.body if isinstance(n, ast.ClassDef)]:
+        for n in ast.walk(cd):
+            if isinstance(n, ast.Call) and ast.unparse(n.func).endswith("rearrange"):
+                pat = None
+                for a in list(n.args) + [k.value for k in n.keywords if k.arg == "pattern"]:
+                    if isinstance(a, ast.Constant) and isinstance(a.value, str) and "->" in a.value:
+                        pat = a.value
+                out.append((cd.name, pat, n))
+    return out
+
+
+def _norm_pattern(side):
+    return " ".join(side.replace("(", " ( ").replace(")", " ) ").split())
+
+
+def patchify_patterns_mirror(res):
+    """Patchify*/Unpatchify*: the two einops patterns are each other's mirror image (A -> B vs B -> A) and the grid sizes
+    the forward transform records are the ones the inverse reads; einops.rearrange with mirrored patterns and equal axis
+    sizes are mutually inverse bijections on index space (assumed contract of einops)"""
+    pairs = [("kappadata/transforms/patchify_image.py", "kappadata/transforms/unpatchify_image.py"),
+             ("kappadata/transforms/patchify.py", "kappadata/transforms/unpatchify.py")]
+    for fwd, inv in pairs:
+        try:
+            pf, pi = _rearrange_patterns(fwd), _rearrange_patterns(inv)
+        except (OSError, SyntaxError) as ex:
+            add_direct(res, f"{fwd}:frame:rearrange-patterns-mirrored", "frame", False, where=fwd, detail=str(ex))
+            continue
+        ok = len(pf) == 1 and len(pi) == 1 and pf[0][1] is not None and pi[0][1] is not None
+        detail = ""
+        if ok:
+            a, b = [_norm_pattern(x) for x in pf[0][1].split("->")]
+            c, d = [_norm_pattern(x) for x in pi[0][1].split("->")]
+            ok = (a, b) == (d, c)
+            detail = "" if ok else f"forward '{pf[0][1]}' vs inverse '{pi[0][1]}'"
+        else:
+            detail = f"expected exactly one literal rearrange pattern per file, found {[p[1] for p in pf]} / {[p[1] for p in pi]}"
+        add_direct(res, f"{fwd}:frame:rearrange-patterns-mirrored", "frame", ok, where=fwd, detail=detail,
+                   note="the inverse's einops pattern is the forward pattern with both sides exchanged",
+                   model={"forward": pf[0][1] if pf else None, "inverse": pi[0][1] if pi else None} if not ok else None)
+        if ok:
+            # axis sizes: keyword arguments of the inverse must be read from the ctx keys the forward call wrote with the same axis value
+            fcall, icall = pf[0][2], pi[0][2]
+            fkw = {k.arg: ast.unparse(k.value) for k in fcall.keywords if k.arg not in ("pattern", "tensor")}
+            ikw = {k.arg: ast.unparse(k.value) for k in icall.keywords if k.arg not in ("pattern", "tensor")}
+            src = open(os.path.join(REPO, fwd)).read()
+            written = {}       # ctx key -> expression stored
+            for n in ast.walk(ast.parse(src)):
+                if isinstance(n, ast.Assign) and isinstance(n.targets[0], ast.Subscript) and ast.unparse(n.targets[0].value) == "ctx" \
+                        and isinstance(n.targets[0].slice, ast.Constant):
+                    written[n.targets[0].slice.value] = ast.unparse(n.value)
+            bad = []
+            for axis, expr in ikw.items():
+                key = None
+                try:
+                    e = ast.parse(expr, mode="eval").body
+                    if isinstance(e, ast.Subscript) and ast.unparse(e.value) == "ctx" and isinstance(e.slice, ast.Constant):
+                        key = e.slice.value
+                except SyntaxError:
+                    pass
+                if key is None or key not in written or written[key] != fkw.get(axis):
+                    bad.append(f"axis {axis}: inverse reads {expr}, forward binds {axis}={fkw.get(axis)} and records {written}")
+            add_direct(res, f"{fwd}:frame:inverse-reads-recorded-grid", "frame", not bad, where=inv, detail="; ".join(bad),
+                       note="every axis size the inverse passes to einops is the ctx entry in which the forward call stored that axis' size",
+                       model={"mismatch": bad} if bad else None)
